@@ -174,7 +174,7 @@ Section Step.
     { intros Hpos. destruct (s_rx_fin_received s) eqn:Efin; [|reflexivity]. exfalso.
       pose proof (Hfin eq_refl) as HF1.
       assert (0 < n) by (unfold trim_len in Hpl; lia).
-      specialize (HFseg ltac:(lia) _ HF1). unfold wsq, finz in HFseg. rewrite Efin in HFseg. cbn [b2z] in HFseg.
+      specialize (HFseg ltac:(lia) ltac:(unfold trim_len in Hpl; lia) _ HF1). unfold wsq, finz in HFseg. rewrite Efin in HFseg. cbn [b2z] in HFseg.
       unfold trim_len in Hpl. lia. }
     (* payload phase *)
     pose proof (payload_synced S F have (have_seg have c s r) c s7 cx ip r payload off (Ok (s8, rep8, t8)) W) as Hps.
@@ -196,7 +196,7 @@ Section Step.
     { intros Hpos f Hf. pose proof (Hnofin Hpos) as Efin.
       assert (Hwsq : wsq c s = c + rb_len (s_rx_buffer s)) by (unfold wsq, finz; rewrite Efin; cbn [b2z]; lia).
       assert (0 < n) by (unfold trim_len in Hpl; lia).
-      specialize (HFseg ltac:(lia) f Hf). subst off. rewrite Hpl. unfold trim_off, trim_len. lia. }
+      specialize (HFseg ltac:(lia) ltac:(unfold trim_len in Hpl; lia) f Hf). subst off. rewrite Hpl. unfold trim_off, trim_len. lia. }
     specialize (Hps HFp Hp8).
     destruct Hps as (s8' & rep8' & t8' & Heq & P1 & P2 & P3 & P4 & P5 & P6 & P7 & P8 & P9 & P10 & P11 & P12).
     inversion Heq; subst s8' rep8' t8'; clear Heq.
